@@ -3,11 +3,18 @@ evaluator (factory.YaqlEngine, yaql.eval, expressions.Statement)."""
 from vlib.pyvc.verify import Contract
 from vlib.pyvc.sym import TInt, TBool, TStr, TVal, TSeq, TOpt
 from contracts._util import obj, mapcell
+from vlib.pyvc.sym import Opaque
+
+NV = Opaque('NO_VALUE')
 
 F = 'yaql.language.factory.'
 
 
 def setup(world):
+    world.opaque_globals[('yaql.language.utils', 'NO_VALUE')] = NV
+    world.callee_contract('yaql.language.utils.convert_input_data')
+    world.opaque_sig('register_function', log=True)
+    world.opaque_sig('collect_functions', log=True)
     world.opaque_sig('clone', log=True)
     world.opaque_sig('parse', log=True)
     world.opaque_sig('create_child_context', log=True)
@@ -72,7 +79,58 @@ def contracts():
             'result == calls[-1][2]',
         ],
         serves=('C01', 'C18'), native=False))
+    # the host document is bound to `$` whatever its truth value
+    cs.append(Contract(
+        'yaql._setup_context', name='yaql._setup_context',
+        params=dict(data=TVal, context=TVal, finalizer=TVal,
+                    convention=TVal),
+        env={'NV': NV},
+        requires=['context is not None', 'finalizer is not None'],
+        ensures=[
+            'result == context',
+            'implies(data is NV, len([e for e in calls '
+            'if e[0] == "setitem"]) == 0)',
+            'implies(data is not NV, len(calls) == 3 and calls[1][0] == '
+            '"contract:utils.convert_input_data" and calls[1][1][0] == data '
+            'and calls[2][0] == "setitem" and calls[2][1][0] == context and '
+            'calls[2][1][1] == "$" and calls[2][1][2] == calls[1][2])'],
+        serves=('C10', 'C09'), native=False))
+    for conv in (True, False):
+        stmt = obj('yaql.language.expressions.Statement', engine=_eng(conv),
+                   expression=TVal, name='#finalize', args=(),
+                   uses_receiver=False)
+        cs.append(Contract(
+            'yaql.language.expressions.Statement.evaluate',
+            name='expressions.Statement.evaluate/convertInputData=%s' % conv,
+            params=dict(self=stmt, data=TVal, context=TVal),
+            env={'NV': NV, 'CONV': conv},
+            requires=['context is not None', 'context is not NV',
+                      'data is not NV'],
+            ensures=[
+                # `$` of the supplied context is the only thing written;
+                # the data is deep-converted iff the option says so
+                'len([e for e in calls if e[0] == "setitem"]) == 1',
+                'all([e[1][0] == context and e[1][1] == "$" and '
+                'e[1][2] == (calls[0][2] if CONV else data) '
+                'for e in calls if e[0] == "setitem"])',
+                'implies(CONV, calls[0][0] == '
+                '"contract:utils.convert_input_data" and '
+                'calls[0][1][0] == data)',
+                'implies(not CONV, len([e for e in calls if e[0] == '
+                '"contract:utils.convert_input_data"]) == 0)'],
+            serves=('C09', 'C10'), native=False, note=str(conv)))
     return cs
+
+
+class _eng:
+    is_factory = True
+
+    def __init__(self, flag):
+        self.flag = flag
+
+    def __call__(self, name, path):
+        from contracts.utils import engine_with
+        return engine_with(**{'yaql.convertInputData': self.flag})(name, path)
 
 
 class _tv:
